@@ -17,9 +17,27 @@ def build(ctx):
         ctx._sched = (tools, log)
     return ctx._sched
 
-def run_scenarios(tools, scen_text, lincheck_args=(), timeout=1800):
-    """scenario lines -> list of (scenario dict, result dict, lincheck dict)"""
+def find_hang(tools, lines, probe_timeout=15):
+    """bisect a batch on which the driver does not finish: -> the scenario line that hangs (or None)"""
+    lo, hi = 0, len(lines)
+    while hi - lo > 1:
+        mid = (lo + hi) // 2
+        rc, _, _ = C.sh([tools["verifsched"]], inp="\n".join(lines[lo:mid]) + "\n", timeout=probe_timeout)
+        if rc == 124:
+            hi = mid
+        else:
+            lo = mid
+    return lines[lo] if lo < len(lines) else None
+
+def run_scenarios(tools, scen_text, lincheck_args=(), timeout=None):
+    """scenario lines -> list of (scenario dict, result dict, lincheck dict);
+    (None, "HANG ...", scenario) when the driver itself does not finish"""
+    timeout = timeout or C.driver_timeout()
     rc, out, err = C.sh([tools["verifsched"]], inp=scen_text, timeout=timeout)
+    if rc == 124:
+        lines = [l for l in scen_text.splitlines() if l.strip() and not l.startswith("#")]
+        culprit = find_hang(tools, lines)
+        return None, "HANG: the scheduler driver did not finish within %ds" % timeout + ("\n" + culprit if culprit else "")
     if rc != 0:
         return None, "verifsched: " + err[-1500:]
     rc2, out2, err2 = C.sh([tools["lincheck"]] + list(lincheck_args), inp=out, timeout=timeout)
